@@ -13,6 +13,8 @@ import MajoranaVerif.Props.C01
 import MajoranaVerif.Props.C12
 import MajoranaVerif.Proofs.Mvp5Cycles
 import MajoranaVerif.Proofs.Mvp60Witness2
+import MajoranaVerif.Proofs.Mvp60SlNoPanic
+import MajoranaVerif.Proofs.Mvp60SlSpec
 open GoInt Model Model.Seq Proofs.Seq Proofs.Refine
 
 namespace Props.C07
@@ -292,5 +294,36 @@ theorem mvp60_wrong_path_error :
   obtain ⟨b, _⟩ := Proofs.Mvp60Witness.obs_eq Proofs.Mvp60Witness.err_p1
   obtain ⟨c, _⟩ := Proofs.Mvp60Witness.obs_eq Proofs.Mvp60Witness.err_p2
   exact ⟨a, b, c⟩
+
+end Props.C07
+
+/-! ## MVP-6.0 (package R60c): no Go panic on register-only programs with branches, jumps, calls and `ret`
+
+The "not with a Go panic" half of totality for the class `Model.Mvp60.RegOnlyWf`, every number of execute and write units:
+every tick from a state of the refinement relation returns normally (`Proofs.Mvp60Sl.cycleM_ok`) — the instruction cache
+lines stay well-formed (`Proofs.Mvp3.IWf`), the decode unit only sees pcs of the program, an execute unit only runs
+instructions of the class (which cannot panic: `Proofs.Mvp60Sl.g_run_nopanic`), no store ever reaches a write unit.
+That the run ENDS within some tick budget (no deadlock, no livelock) is not proved. -/
+namespace Props.C07
+
+/-- **MVP-6.0 never panics on the class `RegOnlyWf`** whenever the specification run is well-formed (needed for the targets
+of `jalr`), for every number `K` of units and every tick budget: the run is still going, or it has ended with `ret`, past
+the end, or with the defined error. -/
+theorem mvp60_regonly_never_panics (app : App) (hw : WfApp app) (hc : Model.Mvp60.RegOnlyWf app = true)
+    (ctx : Model.Context) (m : Spec.Machine) (hR : Rel ctx m) (hpw : ∀ r, GoMap.get1 ctx.PendingWriteRegisters r = 0)
+    (hseq : ctx.sequenceID = 0) (K fuel ticks : Nat)
+    (hwf : ∀ why, (Spec.run (specProg app) m fuel).stop ≠ .notWf why) (w : String) :
+    (Model.Mvp60.run app ctx K K ticks).halt ≠ some (.panic w) := by
+  have hj := Proofs.Mvp60Sl.jclass_of_regOnlyWf app hc
+  exact Proofs.Mvp60Sl.mvp60_j_never_panics app ⟨hw.small, hw.nofwd, hj⟩ ctx ⟨hR.rat, hR.tx, hpw⟩ K ticks (Or.inl hseq)
+    (Proofs.Mvp60Sl.tgtOk_of_spec app hw (Proofs.Mvp60Sl.jclass_all hj) ctx m hR fuel hwf) w
+
+/-- Non-vacuity: the hypotheses hold for `Proofs.Mvp60JumpWitness.earlyApp` (well-formed, in the class, the specification run
+returns), and its run on one unit ends — past the end (R60-defect-1), not with a panic -/
+example : WfApp Proofs.Mvp60JumpWitness.earlyApp ∧ Model.Mvp60.RegOnlyWf Proofs.Mvp60JumpWitness.earlyApp = true ∧
+    (Spec.run (specProg Proofs.Mvp60JumpWitness.earlyApp) { regs := Array.replicate 32 0#32, mem := Array.replicate 64 0#8 } 200).stop = .ret ∧
+    (Model.Mvp60.run Proofs.Mvp60JumpWitness.earlyApp Proofs.Mvp60SlWitness.ctx0 1 1 20000).halt = some .offEnd :=
+  ⟨Proofs.Mvp60JumpWitness.early_wf, Proofs.Mvp60JumpWitness.early_class.1, Proofs.Mvp60JumpWitness.early_spec,
+   Proofs.Mvp60JumpWitness.early_p1_halt⟩
 
 end Props.C07
